@@ -123,12 +123,15 @@ loop:
 		// Wait for any service to finish
 		select {
 		case <-hs.lc.ShutdownRequest():
+			veriftrace.Emit("cluster-hostnames", "", "shutdown")
 			hs.lc.ShutdownInitiated(nil)
 			break loop
 		case rr := <-hs.requests:
 			hs.doRequest(rr)
+			veriftrace.Emit("cluster-hostnames", rr.dID.String(), "request-done", "inuse", hs.inUse)
 		case hostnames := <-hs.releases:
 			hs.doRelease(hostnames)
+			veriftrace.Emit("cluster-hostnames", "", "release", "hostnames", hostnames, "inuse", hs.inUse)
 		}
 	}
 
@@ -154,6 +157,7 @@ func (hs *hostnameService) isHostnameBlocked(hostname string) error {
 
 func (hs *hostnameService) doRequest(rr reserveRequest) {
 	veriftrace.Gate("cluster-hostnames/" + rr.dID.String())
+	veriftrace.Emit("cluster-hostnames", rr.dID.String(), "request", "did", rr.dID, "hostnames", rr.hostnames, "reserve", rr.doReserve, "inuse", hs.inUse)
 	// check if hostname is blocked
 	for _, hostname := range rr.hostnames {
 		blockedErr := hs.isHostnameBlocked(hostname)
